@@ -33,7 +33,7 @@ def shards(tier, seed):
 
 def floors(tier):
     f = {"solves": 70, "solves:default_construction": 3, "entries:checked": 120, "entries:graph_differs_from_target": 30, "generates:branches": 200,
-         "generates:compiles": 300, "entries:with_conversion_gates": 20, "targets:permuted_node_insertion_order": 5}
+         "generates:compiles": 300, "entries:with_conversion_gates": 20, "targets:permuted_node_insertion_order": 5, "result_table:sorted": 30}
     for mth in METHODS:
         f["method:" + str(mth)] = 3
     return f
@@ -195,6 +195,24 @@ def check_case(cseed, nmax, ctx, m, mon, state):
             ctx.violation("solver_result_does_not_match_returned_list", case, {"len_result": len(res), "len_returned": len(results)}, key="result_columns")
     except Exception as e:
         ctx.violation("solver_result_unreadable", case, {"exception": f"{type(e).__name__}: {e}"[:200]}, key="result_exc")
+    # the result table re-ordered through its own API: every row must stay one entry (circuit, listed graph, map together)
+    try:
+        res = solver.result
+        if len(res) >= 2:
+            perm = [int(v) for v in np.random.default_rng(seed if isinstance(seed, int) else 0).permutation(len(res))]
+            res.add_properties("tag")
+            res["tag"] = list(range(len(res)))
+            res["score"] = [0.001 * (1 + perm[i]) for i in range(len(res))]      # distinct keys, not yet in order
+            res.sort_by("score")
+            ctx.count("result_table:sorted")
+            rows_ok = all(res["circuit"][i] is results[res["tag"][i]][0] and res["g"][i] is results[res["tag"][i]][1]["g"]
+                          and res["map"][i] == results[res["tag"][i]][1]["map"] and res["circuit_id"][i] == f"c{res['tag'][i]}"
+                          for i in range(len(res)))
+            if not rows_ok or sorted(res["tag"]) != list(range(len(res))) or list(res["score"]) != sorted(res["score"]):
+                ctx.violation("sorting_the_result_table_mixes_entries", case, {"tags_after_sort": list(res["tag"]), "scores_after_sort": list(res["score"])},
+                              key="result_sort")
+    except Exception as e:
+        ctx.violation("solver_result_unreadable", case, {"exception": f"{type(e).__name__}: {e}"[:200], "step": "sort_by"}, key="result_sort_exc")
     if len(results) == 0:
         ctx.violation("no_result_entries", case, {}, key="empty_result")
     ctx.case((A.tobytes(), repr(setting), rep, seed), nontrivial,
